@@ -24,6 +24,10 @@ Corners:
                   F-C10-namesake-classifier-referenced, re-observed on three fixed witnesses per run).
                   Correspondence: coq/Model/NameFrag.v (run_namefrag: walk of name-based fragments, sub-packages
                   first) against resource.resolve(eURIFragment()) for every package and classifier of these metamodels.
+      'extmm'   : the saved metamodel takes super types, attribute/reference/operation/parameter types and exceptions
+                  from ANOTHER metamodel that is in no resource and only registered (ResourceSet or global registry;
+                  under its nsURI, an alias key, both, or an nsURI changed after registration); reloaded where that
+                  metamodel is known the same way: same signature, targets are the very registered objects.
   correspondence (ties coq/Gen/EcoreMM.v, i.e. the translator's reading of pyecore/ecore.py, to the running library):
       (a) every row of the generated table against the live reflection of pyecore.ecore (names, kinds, types, bounds,
           containment, derived/transient, effective eOpposite),
@@ -2332,6 +2336,286 @@ def nsprefix_scenarios(ctx, out):
     out.coverage['nsprefix_repeat_failures_of_a_reported_kind'] = stats.get('repeat_failures', 0)
 
 
+# --------------------------------------------------------------------------- types of another, registered metamodel
+#
+# The saved metamodel P takes super types, attribute/reference types, operation/parameter types and exceptions from a
+# metamodel Q that lives in NO resource and is only known through the metamodel registry (of the ResourceSet, or the
+# global one): under its nsURI, under another agreed key (an alias / stable URI), under both, or under an nsURI that
+# was changed after the registration.  P is saved, reloaded in a fresh ResourceSet where Q is known the same way, and
+# has the same structural signature; the cross-package targets of the reloaded P are the very objects of Q.
+
+def _op(name, ty, params, exceptions, upper=1):
+    return {'name': name, 'type': ty, 'lower': 0, 'upper': upper, 'ordered': True, 'unique': True,
+            'params': [{'name': n, 'type': t, 'required': req, 'lower': 0, 'upper': u, 'ordered': True, 'unique': True}
+                       for n, t, req, u in params], 'exceptions': exceptions}
+
+
+EXT_REGISTRATIONS = ['nsuri', 'alias', 'both', 'alias-first', 'nsuri-changed-later']
+EXT_WHERE = ['rset', 'rset', 'global']
+
+
+def gen_ext_desc(rng, stats=None):
+    """{'roots': [Q, P]}: Q is never put into a resource; P refers to it through '@0:' paths."""
+    base = 'http://verif/c10/ext/' + rng.choice(['a', 'b.c'])
+    q = _pk('base', base + '/base/2.0', rng.choice(['base', 'b']))
+    qsub = None
+    if rng.random() < 0.4:
+        qsub = _pk('types', base + '/base/2.0/types', 'bt')
+        q['subpackages'].append(qsub)
+
+    def qplace(c):
+        d = qsub if qsub is not None and rng.random() < 0.5 else q
+        d['classifiers'].append(c)
+        return '@0:' + ('types/' if d is qsub else '') + c['name']
+    qclasses = [qplace(_cls('Named', abstract=rng.random() < 0.6, features=[_attr('qname', 'ecore:EString')]))]
+    if rng.random() < 0.7:
+        qclasses.append(qplace(_cls('Thing', features=[_attr('qsize', 'ecore:EInt')])))
+    if rng.random() < 0.4:
+        qclasses.append(qplace(_cls('Special', supers=[qclasses[0][3:]], features=[_attr('qflag', 'ecore:EBoolean')])))
+    qenum = qplace({'kind': 'enum', 'name': 'Kind', 'literals': [['SMALL', 0], ['LARGE', 1]], 'default': None,
+                    'annotations': []})
+    qdt = qplace({'kind': 'datatype', 'name': 'Failure', 'instanceClassName': 'java.lang.Exception',
+                  'annotations': []})
+    p = _pk('app', base + '/app', 'app')
+    psub = None
+    if rng.random() < 0.3:
+        psub = _pk('inner', base + '/app/inner', 'inner')
+        p['subpackages'].append(psub)
+    uid = [0]
+    counts = {}
+
+    def note(k):
+        counts[k] = counts.get(k, 0) + 1
+    local = []
+    for i in range(rng.randint(1, 4)):
+        c = _cls(f'C{i}', abstract=rng.random() < 0.15)
+        supers = []
+        if local and rng.random() < 0.4:
+            supers.append(rng.choice(local))
+        if rng.random() < 0.6:
+            supers.append(rng.choice(qclasses))
+            note('super types')
+        # one inheritance line must not reach a Q class twice through different orders: at most one Q super, and
+        # local supers only when they have no Q super themselves (keeps C3 trivially consistent)
+        if len(supers) == 2 and any(x.startswith('@0:') for x in _cls_by_path(p, supers[0])['supers']):
+            supers = supers[1:]
+        c['supers'] = supers
+        for _ in range(rng.randint(0, 3)):
+            uid[0] += 1
+            r = rng.random()
+            if r < 0.3:
+                c['features'].append(_attr(f'pa{uid[0]}', qenum, upper=rng.choice([1, 1, -1])))
+                note('attribute types (enum)')
+            elif r < 0.4:
+                c['features'].append(_attr(f'pd{uid[0]}', qdt))
+                note('attribute types (data type)')
+            elif r < 0.75:
+                c['features'].append(_ref(f'pr{uid[0]}', rng.choice(qclasses), upper=rng.choice([1, -1]),
+                                          containment=rng.random() < 0.3))
+                note('reference types')
+            else:
+                c['features'].append(_attr(f'pl{uid[0]}', 'ecore:EString'))
+        for _ in range(rng.choice([0, 0, 1, 2])):
+            uid[0] += 1
+            params = []
+            for k in range(rng.randint(0, 2)):
+                t = rng.choice([qenum, rng.choice(qclasses), 'ecore:EInt'])
+                params.append((f'x{k}', t, True, rng.choice([1, 1, -1])))
+                if t.startswith('@0:'):
+                    note('parameter types')
+            ty = rng.choice([None, 'ecore:EInt', rng.choice(qclasses), qenum])
+            if ty and ty.startswith('@0:'):
+                note('operation types')
+            exc = []
+            if rng.random() < 0.5:
+                exc.append(rng.choice([qdt, rng.choice(qclasses)]))
+                note('exceptions')
+            c['operations'].append(_op(f'op{uid[0]}', ty, params, exc))
+        d = psub if psub is not None and rng.random() < 0.4 else p
+        d['classifiers'].append(c)
+        local.append(('inner/' if d is psub else '') + c['name'])
+    if not any(counts.values()):
+        uid[0] += 1
+        c['features'].append(_ref(f'pr{uid[0]}', qclasses[0]))
+        note('reference types')
+    if stats is not None:
+        for k, v in counts.items():
+            stats[k] = stats.get(k, 0) + v
+    return {'roots': [q, p]}
+
+
+def _cls_by_path(root, path):
+    d = root
+    names = path.split('/')
+    for n in names[:-1]:
+        d = next(s for s in d['subpackages'] if s['name'] == n)
+    return next(c for c in d['classifiers'] if c['name'] == names[-1])
+
+
+def _register_ext(rs, q, how, where, alias, undo):
+    """Q known to the ResourceSet `rs` the way `how` says -> nothing; global keys are recorded in `undo`"""
+    from pyecore.resources import global_registry
+    reg = rs.metamodel_registry if where == 'rset' else global_registry
+
+    def put(k):
+        reg[k] = q
+        if reg is global_registry:
+            undo.append(k)
+    if how in ('nsuri', 'both', 'nsuri-changed-later'):
+        put(q.nsURI)
+    if how in ('alias', 'both', 'alias-first'):
+        put(alias)
+    if how == 'alias-first':
+        put(q.nsURI)
+
+
+def _cross_targets(proots, q):
+    """the objects outside P that P's classes point to (super types, types, exceptions), in a fixed order"""
+    out = []
+
+    def note(what, t):
+        if t is None:
+            return
+        t = t.eClass if isinstance(t, type) else t
+        try:
+            t = t.force_resolve()
+        except Exception:
+            out.append((what, 'unresolved'))
+            return
+        if t.eRoot() is q:
+            out.append((what, id(t)))
+    for c in all_eclasses(proots):
+        for x in c.eSuperTypes:
+            note(f'{c.name} super', x)
+        for f in c.eStructuralFeatures:
+            note(f'{c.name}.{f.name} type', f.eType)
+        for o in c.eOperations:
+            note(f'{c.name}.{o.name}() type', o.eType)
+            for x in o.eExceptions:
+                note(f'{c.name}.{o.name}() raises', x)
+            for a in o.eParameters:
+                note(f'{c.name}.{o.name}({a.name}) type', a.eType)
+    return out
+
+
+def ext_case(desc, how, where, inst_seed, tmp, stats=None):
+    """-> list of {'construct','what'}"""
+    from pyecore.resources import URI, global_registry
+    fails = []
+    os.makedirs(tmp, exist_ok=True)
+    q, p = build(desc)
+    alias = q.nsURI.rsplit('/', 1)[0]                    # the stable key: the nsURI without its version
+    undo = []
+    try:
+        rs = fresh_rset()
+        _register_ext(rs, q, how, where, alias, undo)
+        if how == 'nsuri-changed-later':
+            q.nsURI = q.nsURI + '.1'                     # a new version; the registration keeps the agreed key
+        sig0 = signature_all([p])
+        want = _cross_targets([p], q)
+        path = os.path.join(tmp, 'app.ecore')
+        res = rs.create_resource(URI(path))
+        res.append(p)
+        try:
+            res.save()
+        except Exception as e:
+            return [{'construct': 'save-raises', 'what': f'{type(e).__name__}: {e}'[:300]}]
+        for k in undo:
+            global_registry.pop(k, None)
+        del undo[:]
+        # somebody else reads the file; Q is known there in the same way (same keys, same objects)
+        rs2 = fresh_rset()
+        reg2 = rs2.metamodel_registry if where == 'rset' else global_registry
+        keys = {'nsuri': [q.nsURI], 'alias': [alias], 'both': [q.nsURI, alias], 'alias-first': [alias, q.nsURI],
+                'nsuri-changed-later': [q.nsURI[:-2]]}[how]
+        for k in keys:
+            reg2[k] = q
+            if reg2 is global_registry:
+                undo.append(k)
+        try:
+            reloaded = list(rs2.get_resource(URI(path)).contents)
+            sig1 = signature_all(reloaded)
+            got = _cross_targets(reloaded, q)
+        except Exception as e:
+            return [{'construct': 'reload-raises', 'what': f'{type(e).__name__}: {e}'[:300]}]
+        diffs = sig_diff(sig0, sig1)
+        if diffs:
+            lab, pair, pth, a, b = diffs[0]
+            fails.append({'construct': 'signature-' + lab,
+                          'what': f'{pair[0]}.{pair[1]} at {pth}: saved {a} / reloaded {b} ({len(diffs)} place(s))'})
+        elif got != want:
+            i = next((i for i, (x, y) in enumerate(zip(want, got)) if x != y), min(len(want), len(got)))
+            fails.append({'construct': 'cross-package-target-identity',
+                          'what': f'{(want + [("end", 0)])[i][0]}: the reloaded metamodel does not point to the object '
+                                  f'of the registered metamodel'})
+        if stats is not None:
+            stats['cross_package_references_compared'] = stats.get('cross_package_references_compared', 0) + len(want)
+        probs = check_instantiable(reloaded, random.Random(inst_seed))
+        if probs:
+            fails.append({'construct': 'instantiate', 'what': '; '.join(probs[:3])})
+    finally:
+        for k in undo:
+            global_registry.pop(k, None)
+    return fails
+
+
+def extmm_scenarios(ctx, out):
+    """Scenario family 'extmm' (own PRNG stream)."""
+    ecore()
+    rng = common.rng_for(ctx.seed, 'C10:extmm')
+    thorough = ctx.tier == 'thorough'
+    n = 1500 if thorough else 160
+    hard_stop = time.time() + (120 if thorough else 25)       # safety net only; the count decides
+    stats, kinds, seen, modes = {}, {}, {}, {}
+    cases = 0
+    tmp_root = tempfile.mkdtemp(prefix='c10x_', dir=scratch())
+    try:
+        for i in range(n):
+            if time.time() > hard_stop:
+                break
+            desc = gen_ext_desc(rng, kinds)
+            how, where = rng.choice(EXT_REGISTRATIONS), rng.choice(EXT_WHERE)
+            inst_seed = rng.randrange(1 << 30)
+            tmp = os.path.join(tmp_root, f'x{i}')
+            try:
+                fails = ext_case(desc, how, where, inst_seed, tmp, stats)
+            finally:
+                shutil.rmtree(tmp, ignore_errors=True)
+            cases += 1
+            modes[f'{how}/{where}'] = modes.get(f'{how}/{where}', 0) + 1
+            for f in fails:
+                if f['construct'] in seen:
+                    stats['repeat_failures'] = stats.get('repeat_failures', 0) + 1
+                    continue
+                seen[f['construct']] = True
+
+                def case_fn(d, s_, t_):
+                    if len(roots_of(d)) != 2:
+                        return []
+                    return ext_case(d, how, where, s_, t_)
+                small = shrink_enum_desc(desc, inst_seed, f['construct'], max_runs=120 if thorough else 45,
+                                         case_fn=case_fn)
+                tmp = tempfile.mkdtemp(prefix='c10x_', dir=scratch())
+                try:
+                    again = [g for g in case_fn(small, inst_seed, tmp) if g['construct'] == f['construct']]
+                finally:
+                    shutil.rmtree(tmp, ignore_errors=True)
+                what = again[0]['what'] if again else f['what']
+                out.fail({'property': 'C10', 'clause': 'registered-metamodel', 'construct': f['construct']},
+                         f'registered-metamodel/{f["construct"]} (the other metamodel is in no resource, registered '
+                         f'{how} in the {where} registry): {what}',
+                         {'scenario': 'extmm', 'seed': ctx.seed, 'tier': ctx.tier, 'index': i, 'registration': how,
+                          'registry': where, 'desc': small if again else desc, 'inst_seed': inst_seed,
+                          'history': [['two-metamodels', i, how, where], ['check', f['construct']]]})
+    finally:
+        shutil.rmtree(tmp_root, ignore_errors=True)
+    out.coverage['extmm_cases'] = cases
+    out.coverage['extmm_registration_modes'] = dict(sorted(modes.items()))
+    out.coverage['extmm_references_into_the_registered_metamodel_by_kind'] = dict(sorted(kinds.items()))
+    out.coverage['extmm_cross_package_references_compared'] = stats.get('cross_package_references_compared', 0)
+    out.coverage['extmm_repeat_failures_of_a_reported_kind'] = stats.get('repeat_failures', 0)
+
+
 # --------------------------------------------------------------------------- run / replay
 
 def sig_of(f):
@@ -2536,11 +2820,11 @@ def run(ctx, out):
         'time_budget_s': budget,
     })
     # --- scenario families with their own PRNG streams (replayed through common.scenario_replay)
-    for fam in (resave_scenarios, enumlit_scenarios, nsprefix_scenarios):
+    for fam in (resave_scenarios, enumlit_scenarios, nsprefix_scenarios, extmm_scenarios):
         fam(ctx, out)
     namesake_witness_cases(ctx, out)
     out.coverage['evaluations'] += out.coverage.get('resave_cases', 0) + out.coverage.get('enumlit_cases', 0) \
-        + out.coverage.get('nsprefix_cases', 0)
+        + out.coverage.get('nsprefix_cases', 0) + out.coverage.get('extmm_cases', 0)
     out.coverage['rule'] += ('; plus one edit-and-resave case (a generated metamodel edited by a random refactoring '
                              'history and saved 3-4 times through one resource object, each save reloaded and compared) '
                              'and one enumeration case (literals with display strings: .ecore trip, instance documents '
@@ -2569,7 +2853,7 @@ def replay(ctx, rep):
     sig = rep.get('signature', {})
     if case.get('scenario'):
         return common.scenario_replay(ctx, rep, {'resave': resave_scenarios, 'enumlit': enumlit_scenarios,
-                                                'nsprefix': nsprefix_scenarios})
+                                                'nsprefix': nsprefix_scenarios, 'extmm': extmm_scenarios})
     if case.get('kind') == 'namesake-witness':
         tmp = tempfile.mkdtemp(prefix='c10p_', dir=scratch())
         try:
